@@ -415,7 +415,8 @@ fn deps_case(dialect: &str, shadow: bool) -> Option<Value> {
     std::fs::write(d2.join("data.hex"), "ff0180").ok()?;
     std::fs::write(d2.join("*starred*.clib"), "((defconstant STARRED 9))").ok()?;
     if shadow { std::fs::write(d1.join("inc.clib"), "((defconstant FIRST 1))").ok()?; }
-    let src = format!("(mod (X) (include {}) (include inc.clib) (include *starred*.clib) (embed-file blob bin blob.bin) (embed-file hx hex data.hex) (+ X 1))", dialect);
+    // deeper.clib is included only by a (mod ...) nested in the main expression (finding F52: read, but not listed)
+    let src = format!("(mod (X) (include {}) (include inc.clib) (include *starred*.clib) (embed-file blob bin blob.bin) (embed-file hx hex data.hex) (+ X (a (mod (Z) (include deeper.clib) (+ Z DEEP)) (list X))))", dialect);
     let opts: Rc<dyn CompilerOpts> = Rc::new(DefaultCompilerOpts::new("main.clsp"));
     // the first directory is named again at the end: first match still decides
     let opts = opts.set_search_paths(&[d1.to_string_lossy().to_string(), d2.to_string_lossy().to_string(), d1.to_string_lossy().to_string()]);
@@ -430,6 +431,7 @@ fn deps_case(dialect: &str, shadow: bool) -> Option<Value> {
             want.push(d2.join("*starred*.clib").to_string_lossy().to_string());
             want.push(d2.join("blob.bin").to_string_lossy().to_string());
             want.push(d2.join("data.hex").to_string_lossy().to_string());
+            want.push(d2.join("deeper.clib").to_string_lossy().to_string());
             let missing: Vec<&String> = want.iter().filter(|w| !names.contains(w)).collect();
             let pseudo_listed = names.iter().any(|n| n.starts_with('*'));
             let wrong_shadow = shadow && names.contains(&d2.join("inc.clib").to_string_lossy().to_string());
@@ -440,6 +442,39 @@ fn deps_case(dialect: &str, shadow: bool) -> Option<Value> {
     };
     let _ = std::fs::remove_dir_all(&base);
     res
+}
+
+// a classic (sigil-free) program whose include file includes another file: if it compiles, the listing names both files
+fn deps_classic_nested() -> Option<Value> {
+    use chialisp::classic::clvm_tools::clvmc::compile_clvm_text_maybe_opt;
+    use chialisp::compiler::compiler::DefaultCompilerOpts;
+    use chialisp::compiler::comptypes::CompilerOpts;
+    use chialisp::compiler::preprocessor::gather_dependencies;
+    use std::collections::HashMap;
+    use std::rc::Rc;
+    let base = std::env::temp_dir().join(format!("verif_replay_depsc_{}", std::process::id()));
+    let _ = std::fs::remove_dir_all(&base);
+    std::fs::create_dir_all(&base).ok()?;
+    std::fs::write(base.join("l1.clib"), "(\n  (include l2.clib)\n  (defun-inline one (X) (two X))\n)").ok()?;
+    std::fs::write(base.join("l2.clib"), "(\n  (defun-inline two (X) (+ X 2))\n)").ok()?;
+    let src = "(mod (X) (include l1.clib) (one X))";
+    let dirs = [base.to_string_lossy().to_string()];
+    let res = catch_unwind(move || {
+        let mut a = clvmr::Allocator::new();
+        let opts: Rc<dyn CompilerOpts> = Rc::new(DefaultCompilerOpts::new("main.clsp"));
+        let opts = opts.set_search_paths(&dirs);
+        let mut syms = HashMap::new();
+        let compiled = compile_clvm_text_maybe_opt(&mut a, false, opts.clone(), &mut syms, src, "main.clsp", false).is_ok();
+        let listing = gather_dependencies(opts, "main.clsp", src).map(|l| l.iter().map(|d| String::from_utf8_lossy(&d.name).to_string()).collect::<Vec<String>>()).map_err(|e| e.1);
+        (compiled, listing)
+    });
+    let _ = std::fs::remove_dir_all(&base);
+    match res {
+        Ok((true, Ok(names))) if names.iter().any(|n| n.ends_with("l1.clib")) && names.iter().any(|n| n.ends_with("l2.clib")) => None,
+        Ok((true, l)) => Some(hit(json!({"classic_nested_include": true}), "the program compiles (classic compiler), so the listing names l1.clib and l2.clib".into(), format!("listing: {:?}", l), "compile_clvm_text_maybe_opt vs gather_dependencies on a temp directory")),
+        Err(_) => Some(hit(json!({"classic_nested_include": true}), "no panic".into(), "panic".into(), "compile / gather_dependencies panicked")),
+        _ => None,
+    }
 }
 
 // ---- classic disassemble -> assemble round trip, every operator-set version
@@ -2155,7 +2190,14 @@ pub fn search(name: &str, seed: u64) -> Value {
                 nq += 1;
                 if let Some(v) = chk_modern_print_quoted(kind, &t) { return v; }
             } } }
+            // string constants holding bytes >= 0x80: well-formed UTF-8 of 2, 3 and 4 bytes, ill-formed sequences, Latin-1 (seed C09-f printed UTF-8 as text)
+            for kind in [b'"', b'\'', b'x'] { for body in [&[0xc3u8, 0xa9][..], &[0xe2, 0x82, 0xac], &[0xf0, 0x9f, 0x98, 0x80], &[b'c', b'a', b'f', 0xc3, 0xa9], &[0xd0, 0xb0, 0xd0, 0xb1], &[0xe9], &[0xc3], &[0x80], &[0xff, 0xfe], &[b'a', 0xc3, 0xa9, b'"', b'b'], &[0x7f], &[0xc2, 0x80]] {
+                nq += 1;
+                if let Some(v) = chk_modern_print_quoted(kind, body) { return v; }
+            } }
             let progs = [
+                "(mod () (include *standard-cl-21*) 0xd0b0d0b1)",
+                "(mod (X) (include *standard-cl-23*) (c \"caf\u{e9}\" X))",
                 "(mod (X) (include *standard-cl-24*) (list \"hello\" \"it's\" \"say \\\"hi\\\"\" 0x0000ff 0xff 0x00 -1 -129 255 65536 100000000000000000000000000000 X))",
                 "(mod (X) (include *standard-cl-24*) (defconstant K 0x00ff) (defun f (A) (c A (q . (1 2 \"three\" 0x04)))) (f (c K X)))",
                 "(mod (X) (include *standard-cl-24*) (list (q . foo) (q . (bar baz)) X))",
@@ -2163,6 +2205,12 @@ pub fn search(name: &str, seed: u64) -> Value {
                 "(mod () (include *standard-cl-24*) (q . concat))",
                 "(mod (X) (include *standard-cl-24*) (list (q . a) (q . sha256) X))",
                 "(mod (X) (include *standard-cl-23.1*) (c (q . +) X))",
+                // quoted atoms spelled like numbers or beginning with #: printed bare, read back as something else (F29 family)
+                "(mod () (include *standard-cl-24*) (q . ##foo))",
+                "(mod () (include *standard-cl-24*) (q . #5))",
+                "(mod () (include *standard-cl-24*) (q . +5))",
+                "(mod () (include *standard-cl-24*) (q . 0X1f))",
+                "(mod () (include *standard-cl-24*) (q . 1_000))",
             ];
             for p in progs.iter() { if skipped(&json!({"program": p})) { continue; } if let Some(v) = chk_modern_print_program(p) { return v; } }
             nf(&format!("modern printed text is read back identically by parse_sexp and by the classic assembler on the enumerated values, on {} quoted-string constants (3 quote kinds x strings of <= 4 symbols over a ' \" x \\ space s) and on the compiled text of {} programs with string / hex / negative / large / zero-prefixed literals and quoted symbols (recorded findings skipped)", nq, progs.len()))
@@ -2175,7 +2223,8 @@ pub fn search(name: &str, seed: u64) -> Value {
             for dialect in ["*standard-cl-21*", "*standard-cl-23*"] { for shadow in [false, true] {
                 if let Some(v) = deps_case(dialect, shadow) { return v; }
             } }
-            nf("dependency listing contains every file read (include, include of a file whose name starts with *, embed-file bin/hex), no pseudo-file, and respects search-path order, in cl21 and cl23")
+            if !skipped(&json!({"classic_nested_include": true})) { if let Some(v) = deps_classic_nested() { return v; } }
+            nf("dependency listing contains every file read (include, include of a file whose name starts with *, embed-file bin/hex, an include inside a (mod ...) nested in the main expression), no pseudo-file, and respects search-path order, in cl21 and cl23")
         }
         "advance" | "srcloc" | "combine_src_location" | "ext" | "add_onto" | "len" | "ending" | "src_location_max" | "src_location_min" | "from_pair" => {
             for col in 1..70usize { for ch in 0u16..=255 { if let Some(v) = chk_advance(3, col, ch as u8) { return v; } } }
@@ -2234,6 +2283,7 @@ pub fn search(name: &str, seed: u64) -> Value {
 
 pub fn run_input(name: &str, input: &Value) -> Value {
     match name {
+        "deps" if input["classic_nested_include"].as_bool() == Some(true) => deps_classic_nested().unwrap_or_else(|| nf("input does not violate the contract on this tree")),
         "token_mutations" => { let srcx = input["program"].as_str().unwrap_or(""); match compile_in_child_limit(srcx, input["limit"].as_u64().unwrap_or(120)) { Err(e) if e.starts_with("<killed") => hit(json!({"program": srcx}), "a result or an error".into(), e, "compile_clvm_text_maybe_opt in a child process"), _ => nf("input does not violate the contract on this tree") } }
         "determinism" => chk_determinism_one(input["source"].as_str().unwrap_or("")).unwrap_or_else(|| nf("input does not violate the contract on this tree")),
         "classic_meaning" => chk_meaning(input["program"].as_str().unwrap_or(""), None, input["args"].as_str().unwrap_or("()"), input["expected"].as_str().unwrap_or("()")).unwrap_or_else(|| nf("input does not violate the contract on this tree")),
